@@ -20,6 +20,11 @@ pub struct Big {
 pub static DEAD_ACT: AtomicUsize = AtomicUsize::new(0);
 pub static DEAD_AT: AtomicUsize = AtomicUsize::new(0);
 static ORD: AtomicUsize = AtomicUsize::new(0);
+/// C01/C03 at sizes the history simulator cannot hold: id of a member that is held from
+/// outside while the main handle is released (usize::MAX: none), and what had been
+/// destroyed (plus 1 if the held handle's count was wrong) when only that handle was left.
+pub static HOLD_ID: AtomicUsize = AtomicUsize::new(usize::MAX);
+pub static HELD_DESTROYED: AtomicUsize = AtomicUsize::new(0);
 
 impl Drop for Big {
     fn drop(&mut self) {
@@ -89,6 +94,21 @@ pub fn run(shape: &str, n: usize, chords: usize, selfsame_every: usize, seed: u6
     let t0 = std::time::Instant::now();
     let mut rng = crate::gen::Rng(seed);
     let mut objs: Vec<Option<Rc<Big>>> = (0..n).map(|id| Some(Rc::new(Big { id, seen, slots: RefCell::new(Vec::new()) }))).collect();
+    let hold = HOLD_ID.load(Relaxed);
+    let held_weak = if hold < n { Some(Rc::downgrade(objs[hold].as_ref().unwrap())) } else { None };
+    // one member may be held from outside while the main handle is released (nothing may
+    // die then), and released afterwards (everything must die then)
+    let release = |keep: Rc<Big>| {
+        let before = held_weak.as_ref().map_or(0, |w| w.strong_count());
+        let held = held_weak.as_ref().and_then(|w| w.upgrade());
+        drop(keep);
+        if let Some(x) = held {
+            // the held member gained our handle; member 0 lost the main handle
+            let expect = if x.id == 0 { before } else { before + 1 };
+            HELD_DESTROYED.store(DESTROYED.load(Relaxed) + usize::from(held_weak.as_ref().unwrap().strong_count() != expect), Relaxed);
+            drop(x);
+        }
+    };
     let mut edges = 0usize;
     let noise = |i: usize| selfsame_every > 0 && i % selfsame_every == 0;
     let at = |objs: &Vec<Option<Rc<Big>>>, i: usize| -> Rc<Big> { Rc::clone(objs[i].as_ref().unwrap()) };
@@ -110,7 +130,7 @@ pub fn run(shape: &str, n: usize, chords: usize, selfsame_every: usize, seed: u6
         let build_us = t0.elapsed().as_micros();
         verif::reset();
         let t1 = std::time::Instant::now();
-        drop(keep);
+        release(keep);
         let drop_us = t1.elapsed().as_micros();
         let c = verif::counters();
         return ScaleOut { n, edges, destroyed: DESTROYED.load(Relaxed), double: DOUBLE.load(Relaxed), trace_calls: c[0], pops: c[1], visits: c[2], scanned: c[3], build_us, drop_us, count_errors: 0 };
@@ -247,7 +267,7 @@ pub fn run(shape: &str, n: usize, chords: usize, selfsame_every: usize, seed: u6
     let build_us = t0.elapsed().as_micros();
     verif::reset();
     let t1 = std::time::Instant::now();
-    drop(keep);
+    release(keep);
     let drop_us = t1.elapsed().as_micros();
     let c = verif::counters();
     for (i, w) in weaks.iter().enumerate() {
@@ -512,4 +532,27 @@ pub fn tls_exit(early: bool) -> NestedOut {
     });
     let _ = h.join();
     NestedOut { n, destroyed: DESTROYED.load(Relaxed), double: DOUBLE.load(Relaxed), leaked_blocks: 0 }
+}
+
+/// For each sampled member X of a strongly connected, fully recorded shape: hold X from
+/// outside, release the main handle (nothing may be destroyed: X reaches everything), then
+/// release X (everything must be destroyed, once).
+pub fn held_sweep(shape: &str, n: usize, chords: usize, seed: u64, samples: usize) -> Vec<(usize, usize, usize, usize)> {
+    let mut rng = crate::gen::Rng(seed ^ 0x68656c64);
+    let ids: Vec<usize> = if n <= samples { (0..n).collect() } else { (0..samples).map(|_| rng.below(n)).collect() };
+    let mut bad = vec![];
+    for x in ids {
+        HOLD_ID.store(x, Relaxed);
+        HELD_DESTROYED.store(0, Relaxed);
+        let o = run(shape, n, chords, 0, seed);
+        let early = HELD_DESTROYED.load(Relaxed);
+        if early != 0 || o.destroyed != n || o.double != 0 {
+            bad.push((x, early, o.destroyed, o.double));
+            if bad.len() >= 4 {
+                break;
+            }
+        }
+    }
+    HOLD_ID.store(usize::MAX, Relaxed);
+    bad
 }
